@@ -180,6 +180,11 @@ func (c *Cluster) drive(spec *runSpec) {
 		if c.stopNow(spec) {
 			return
 		}
+		if c.tooBig() {
+			c.capped = true
+			c.stats.probe("run-capped-undetermined")
+			return
+		}
 	}
 	if c.cfg.FairSuffix {
 		c.fairSuffix(spec)
@@ -214,6 +219,10 @@ func (c *Cluster) afterStep(s *Step) {
 			c.checkC02(n, full)
 		}
 	}
+	c.runOracles(false)
+	if s.Op == "fair" && c.fairQuiescentAt == 0 && c.quiescent() {
+		c.fairQuiescentAt = c.fairCount
+	}
 	if c.stepHook != nil {
 		c.stepHook(s)
 	}
@@ -236,6 +245,7 @@ func (c *Cluster) onCanonicalBlock(b *hg.Block) {
 			c.stats.probe("validator-set-change")
 		}
 	}
+	c.checkC05Safety(b)
 	if c.blockHook != nil {
 		c.blockHook(b)
 	}
@@ -297,3 +307,46 @@ func (c *Cluster) allIdle() bool {
 }
 
 var _ = _state.Babbling
+
+// every returns how often (in steps) the oracle of a property runs: every step
+// in the property's own profile, less often elsewhere (auxiliary alerts).
+func (c *Cluster) every(prop string, def int) bool {
+	if c.cfg.Profile == prop {
+		return true
+	}
+	return c.stepNo%def == 0
+}
+
+// runOracles evaluates the state oracles shared by all cluster profiles.
+func (c *Cluster) runOracles(final bool) {
+	c.recordEmittedSignatures()
+	for _, n := range c.nodes {
+		if !n.started || n.byz || !n.running() {
+			continue
+		}
+		c.checkC05Conservation(n)
+		if final || c.every("C09", 5) {
+			c.checkC09(n, final || c.stepNo%20 == 0)
+		}
+		if final || c.every("C10", 10) {
+			c.checkC10(n)
+		}
+		if final || (c.cfg.Profile == "C04" && c.stepNo%10 == 0) || c.stepNo%50 == 0 {
+			c.checkC04(n)
+		}
+	}
+	if final || c.every("C10", 10) {
+		c.checkC10Cross()
+	}
+}
+
+// tooBig: deterministic cost cap (a stalled network keeps growing its
+// undetermined set; consensus passes are quadratic in it).
+func (c *Cluster) tooBig() bool {
+	for _, n := range c.nodes {
+		if n.running() && len(n.core().Hashgraph().UndeterminedEvents) > 1200 {
+			return true
+		}
+	}
+	return false
+}
